@@ -99,23 +99,34 @@ class GrammarParser:
             a, z = self._parse_rhs()
             self._expect(PythonTokenTypes.OP, ']')
             # Make it also possible that there is no token and change the
-            # state.
-            a.add_arc(z)
-            return a, z
+            # state. This needs new start and end states: `a` and `z` can be
+            # part of a loop (e.g. in `[A B+]` or `[A+ B]`), which must not
+            # be entered or left through the shortcut.
+            aa = NFAState(self._current_rule_name)
+            zz = NFAState(self._current_rule_name)
+            aa.add_arc(a)
+            z.add_arc(zz)
+            aa.add_arc(zz)
+            return aa, zz
         else:
             a, z = self._parse_atom()
             value = self.value
             if value not in ("+", "*"):
                 return a, z
             self._gettoken()
-            # Make it clear that we can go back to the old state and repeat.
-            z.add_arc(a)
             if value == "+":
+                # Make it clear that we can go back to the old state and
+                # repeat.
+                z.add_arc(a)
                 return a, z
             else:
-                # The end state is the same as the beginning, nothing must
-                # change.
-                return a, a
+                # The end state is the same as the beginning. It needs to be
+                # a new state, because `a` can be part of a loop within the
+                # atom (e.g. `(A+ B)*`), which must not be left early.
+                aa = NFAState(self._current_rule_name)
+                aa.add_arc(a)
+                z.add_arc(aa)
+                return aa, aa
 
     def _parse_atom(self):
         # atom: '(' rhs ')' | NAME | STRING
